@@ -496,8 +496,9 @@ namespace occa {
 
     j.clear();
     j.asObject();
+    // A builtin is the registered object itself, not any dtype that shares its name
     const dtype_t &dtype = dtype_t::getBuiltin(name_);
-    if (&dtype != &dtype::none) {
+    if ((&dtype == this) && (&dtype != &dtype::none)) {
       j["type"] = "builtin";
       j["name"] = name_;
     } else {
